@@ -273,6 +273,12 @@ func nativeValidate(rp *replayer, rep *RunReport, fresh []*Candidate, property s
 		if ok {
 			rep.ReplayOK++
 			rep.Violations = append(rep.Violations, c)
+		} else if rep.Cfg.TrustSymbolic != "" {
+			// the counterexample depends on something the native run cannot be forced into (a goroutine
+			// schedule, or a digest value under the uninterpreted hash model): reported on the
+			// strength of the symbolic execution, with the reason stated in the check file
+			c.Msg += " [not reproduced natively: " + rep.Cfg.TrustSymbolic + "]"
+			rep.Violations = append(rep.Violations, c)
 		} else {
 			rep.ValidMism = append(rep.ValidMism, fmt.Sprintf("candidate kind=%s label=%s site=%s did not reproduce natively (native status %s fails %v panic %q)", c.Kind, c.Label, c.Site, r.Status, r.Fails, r.PanicMsg))
 			if verbose {
